@@ -8,6 +8,7 @@ import (
 	"context"
 
 	"github.com/hyperjumptech/grule-rule-engine/ast"
+	"github.com/hyperjumptech/grule-rule-engine/model"
 	verif "github.com/hyperjumptech/grule-rule-engine/zzverif"
 	"github.com/hyperjumptech/grule-rule-engine/zzkb"
 )
@@ -41,6 +42,16 @@ var c04Cases = []c04Case{
 	{"A19", func(p *factSnap) bool { return p.f.I >= 0 }, func(p *factSnap, f *Fact, w *tbWorld) bool { return int64(f.U32) == p.f.I }},
 	{"A20", nil, func(p *factSnap, f *Fact, w *tbWorld) bool { return f.I32 == int32(p.f.Y) }},
 	{"A21", nil, func(p *factSnap, f *Fact, w *tbWorld) bool { return f.P == f.Q && f.P.V == p.q.V }},
+	{"A22", nil, func(p *factSnap, f *Fact, w *tbWorld) bool { return sameJSONLeaf(w.json["a"], p.f.I) }},
+	{"A23", nil, func(p *factSnap, f *Fact, w *tbWorld) bool {
+		return sameJSONLeaf(w.json["b"].(map[string]interface{})["c"], p.f.X)
+	}},
+	{"A24", nil, func(p *factSnap, f *Fact, w *tbWorld) bool {
+		return sameJSONLeaf(w.json["arr"].([]interface{})[1], p.f.X+1.5)
+	}},
+	{"A25", nil, func(p *factSnap, f *Fact, w *tbWorld) bool { return sameJSONLeaf(w.json["s"], p.f.R+"x") }},
+	{"A26", nil, func(p *factSnap, f *Fact, w *tbWorld) bool { return sameJSONLeaf(w.json["flag"], verif.Not(p.f.C)) }},
+	{"A27", nil, func(p *factSnap, f *Fact, w *tbWorld) bool { return sameJSONLeaf(w.json["a"], w.preJ.bc.(float64)*2) }},
 }
 
 func VerifC04Assign() {
@@ -57,6 +68,11 @@ func VerifC04Assign() {
 	w.dc = ast.NewDataContext()
 	w.dc.Add("F", w.f)
 	w.dc.Add("N", smallInt("N"))
+	w.json = newJSONTree("J")
+	if dcx, ok := w.dc.(*ast.DataContext); ok {
+		dcx.ObjectStore["J"] = model.VerifJSONNode(w.json, "J")
+	}
+	w.preJ = snapJSON(w.json)
 	pre := snapFact(w.f, w.topN())
 	if c.assume != nil {
 		verif.Assume(c.assume(&pre)) // the property: values within the destination's range
@@ -80,5 +96,6 @@ func VerifC04Assign() {
 		may["F.P.V"], may["F.P.W"] = true, true
 	}
 	w.frame(pre, w.topN(), may)
+	w.frameJSON(w.preJ, may)
 	verif.Event("case", c.rule)
 }
